@@ -35,6 +35,26 @@ where R: EucRing, for<'x> &'x R: EucRingOps<R> {
     tbl_of(&KhComplexBigraded::<R>::new(l, &R::zero(), &R::zero(), red).homology(), tor)
 }
 
+/// Z table through route 1 / 2 in `i64`; if the fixed-width arithmetic panics (checked overflow inside the LLL / SNF preprocessing on
+/// large complexes — which pivots are taken depends on randomly seeded hash maps) the SAME route is repeated in `BigInt`: the
+/// property is about Z, not about the width of `i64`. A panic in arbitrary precision is not caught here.
+fn z_route(s: &mut Sink, l: &Link, red: bool, route: u8) -> Tbl {
+    let r = if route == 1 { guard(|| route1::<i64>(l, red, &|x| BigInt::from(*x))) } else { guard(|| route2::<i64>(l, red, &|x| BigInt::from(*x))) };
+    match r {
+        Some(t) => t,
+        None => { s.count("machine-overflow.repeated-in-arbitrary-precision"); if route == 1 { route1::<BigInt>(l, red, &|x| x.clone()) } else { route2::<BigInt>(l, red, &|x| x.clone()) } }
+    }
+}
+
+/// the same for Q: `Ratio<i64>` first, `Ratio<BigInt>` if the fixed-width arithmetic panics
+fn q_route(s: &mut Sink, l: &Link, red: bool, route: u8) -> Tbl {
+    let r = if route == 1 { guard(|| route1::<Ratio<i64>>(l, red, &no_tor)) } else { guard(|| route2::<Ratio<i64>>(l, red, &no_tor)) };
+    match r {
+        Some(t) => t,
+        None => { s.count("machine-overflow.repeated-in-arbitrary-precision"); if route == 1 { route1::<Ratio<BigInt>>(l, red, &no_tor) } else { route2::<Ratio<BigInt>>(l, red, &no_tor) } }
+    }
+}
+
 fn tbl_txt(t: &Tbl) -> String {
     table_txt(t.iter().map(|(k, (r, ts))| ((k.0, Some(k.1)), group_txt(*r, ts.clone()))).collect())
 }
@@ -52,12 +72,12 @@ fn cells(ts: &[&Tbl]) -> BTreeSet<(isize, isize)> { ts.iter().flat_map(|t| t.key
 
 fn check_link(s: &mut Sink, name: &str, l: &Link, red: bool, with_model: bool) {
     let desc = format!("{} reduced={} {}", name, red as u8, link_txt(l));
-    let z1 = route1::<i64>(l, red, &|x| BigInt::from(*x));
-    let z2 = route2::<i64>(l, red, &|x| BigInt::from(*x));
+    let z1 = z_route(s, l, red, 1);
+    let z2 = z_route(s, l, red, 2);
     let zb = route1::<BigInt>(l, red, &|x| x.clone());
-    let z128 = route1::<i128>(l, red, &|x| BigInt::from(*x));
-    let t = Tables { z: z1.clone(), q: route1::<Ratio<i64>>(l, red, &no_tor), f2: route1::<FF2>(l, red, &no_tor), f3: route1::<FF<3>>(l, red, &no_tor) };
-    let q2 = route2::<Ratio<i64>>(l, red, &no_tor);
+    let z128 = guard(|| route1::<i128>(l, red, &|x| BigInt::from(*x))).unwrap_or_else(|| { s.count("machine-overflow.i128"); zb.clone() });
+    let t = Tables { z: z1.clone(), q: q_route(s, l, red, 1), f2: route1::<FF2>(l, red, &no_tor), f3: route1::<FF<3>>(l, red, &no_tor) };
+    let q2 = q_route(s, l, red, 2);
     let f22 = route2::<FF2>(l, red, &no_tor);
     let f32 = route2::<FF<3>>(l, red, &no_tor);
 
@@ -115,11 +135,11 @@ fn check_link(s: &mut Sink, name: &str, l: &Link, red: bool, with_model: bool) {
 /// order follows randomly seeded hash maps, so the Q tables are built several times; Z comes from the bigraded complex (route 2)
 fn check_q_repeated(s: &mut Sink, name: &str, l: &Link, reps: usize) {
     let desc = format!("{} reduced=0 {}", name, link_txt(l));
-    let z2 = route2::<i64>(l, false, &|x| BigInt::from(*x));
+    let z2 = z_route(s, l, false, 2);
     let zero = (0usize, vec![]);
     for rep in 0..reps {
-        let q1 = route1::<Ratio<i64>>(l, false, &no_tor);
-        let q2 = route2::<Ratio<i64>>(l, false, &no_tor);
+        let q1 = q_route(s, l, false, 1);
+        let q2 = q_route(s, l, false, 2);
         for c in cells(&[&q1, &q2, &z2]) {
             s.oracle(q1.get(&c) == q2.get(&c), "bigraded table from total homology = homology of the bigraded complex",
                 &format!("{} ring=Q cell ({},{}) build#{}", desc, c.0, c.1, rep), &format!("total-route {:?} vs bigraded-complex {:?}", q1.get(&c), q2.get(&c)));
@@ -217,8 +237,8 @@ fn main() {
         let name = "T(6,7)";
         let l = torus(6, 7);
         guarded_case(&mut s, name, |s| {
-            let z1 = route1::<i64>(&l, false, &|x| BigInt::from(*x));
-            let z2 = route2::<i64>(&l, false, &|x| BigInt::from(*x));
+            let z1 = z_route(s, &l, false, 1);
+            let z2 = z_route(s, &l, false, 2);
             for c in cells(&[&z1, &z2]) {
                 s.oracle(z1.get(&c) == z2.get(&c), "bigraded table from total homology = homology of the bigraded complex",
                     &format!("{} unreduced ring=Z cell ({},{})", name, c.0, c.1), &format!("total-route {:?} vs bigraded-complex {:?}", z1.get(&c), z2.get(&c)));
